@@ -16,19 +16,19 @@ import corerun
 
 # which generator profile and how many programs per tier
 PROFILE = {
-    "C01": dict(kinds=None, quick=260, thorough=4000,
+    "C01": dict(kinds=None, quick=260, thorough=1500,
                 modes=["random", "random", "multiready", "multiready", "churn", "regchurn", "erronly", "timers", "tasks", "events"]),
-    "C02": dict(kinds=("fd", "tk", "tm"), quick=300, thorough=5000,
+    "C02": dict(kinds=("fd", "tk", "tm"), quick=300, thorough=2000,
                 modes=["random", "multiready", "multiready", "churn", "churn", "regchurn", "regchurn", "erronly"], nfd=4),
-    "C03": dict(kinds=("fd", "tk", "ev"), quick=300, thorough=5000,
+    "C03": dict(kinds=("fd", "tk", "ev"), quick=300, thorough=2000,
                 modes=["random", "multiready", "multiready", "churn", "regchurn", "regchurn", "regchurn", "erronly"], nfd=4),
-    "C04": dict(kinds=("tm", "fd", "tk"), quick=300, thorough=5000,
+    "C04": dict(kinds=("tm", "fd", "tk"), quick=300, thorough=2000,
                 modes=["random", "timers", "timers", "timers", "heap", "heap", "tasks", "never"]),
-    "C05": dict(kinds=("tm", "tk", "fd"), quick=300, thorough=5000, modes=["random", "timers", "timers", "heap", "heap", "heap", "never"]),
-    "C06": dict(kinds=("tk", "fd", "tm", "ev"), quick=300, thorough=5000),
-    "C07": dict(kinds=None, quick=260, thorough=4000,
+    "C05": dict(kinds=("tm", "tk", "fd"), quick=300, thorough=2000, modes=["random", "timers", "timers", "heap", "heap", "heap", "never"]),
+    "C06": dict(kinds=("tk", "fd", "tm", "ev"), quick=300, thorough=2000),
+    "C07": dict(kinds=None, quick=260, thorough=1500,
                 modes=["random", "random", "multiready", "churn", "regchurn", "timers", "timers", "tasks", "events", "heap", "never"]),
-    "C15": dict(kinds=None, quick=220, thorough=3000),
+    "C15": dict(kinds=None, quick=220, thorough=1200),
 }
 
 CORE_PROPS = ("C01", "C02", "C03", "C04", "C05", "C06", "C07", "C08", "C09")
@@ -106,7 +106,7 @@ def run(pid, tier, seed, replay=None):
                 import sigcheck
                 import mtcheck
                 rr = _r.Random(seed + 17)
-                k = 120 if tier == "quick" else 1500
+                k = 120 if tier == "quick" else 500
                 for i in range(k):
                     m = rr.choice(coregen.METHODS)
                     scripts.append(sigcheck.gen_c10(rr, "C01s%d.%d" % (seed, i), m))
